@@ -22,6 +22,16 @@ def handlers : List (String × Handler) := [
   ("mp_ip", fun j => do
     let rms ← listOf viewOf (← field j "rms")
     pure <| jRat (ipMulti (← ratOf (← field j "il")) rms (← boolOf (← field j "excl")))),
+  ("mp_costs", fun j => do
+    let b ← listOf (listOf ratOf) (← field j "bom")
+    let prods ← listOf (fun x => do
+      pure ({ h := ← ratOf (← field x "h"), p := ← ratOf (← field x "p"), hTransit := ← optOf ratOf (fieldD x "ht" .null),
+              rev := ← ratOf (← field x "rev"), il := ← ratOf (← field x "il"), heldForCustomers := ← ratOf (← field x "odi"),
+              inTransit := ← ratOf (← field x "transit"), shipped := ← ratOf (← field x "shipped") } : ProdCost)) (← field j "prods")
+    let rms ← listOf (fun x => do
+      pure ({ rate := ← ratOf (← field x "rate"), stock := ← ratOf (← field x "stock"), atDoor := ← ratOf (← field x "door") } : RmCost)) (← field j "rms")
+    let r := mpCosts b prods rms
+    pure <| jObj [("hc", jRat r.hc), ("sc", jRat r.sc), ("ithc", jRat r.ithc), ("rv", jRat r.rv), ("tc", jRat r.tc)]),
   ("mp_rmorders", fun j => do
     pure <| jRats (rmOrders (← ratOf (← field j "oq")) (← ratOf (← field j "nb")) (← natOf (← field j "k"))))
 ]
